@@ -1772,5 +1772,5 @@ FLOORS = {
               "fix_applied:unused_ignore": 130, "fix_applied:missing_await": 20, "ignore_programs": 280,
               "ignore_outcome:fixpoint": 160, "ignore_comment_removal_checks": 300, "no_fixpoint_rechecked_to_the_limit": 2,
               "cli_runs": 4},
-    "thorough": {},
+    "thorough": {"distinct_nontrivial": 1779, "fix_steps_run": 14433, "fix_applied": 6753, "fix_applied:unused": 570, "fix_applied:missing_f": 1378, "fix_applied:use_fstrings": 3770, "fix_applied:too_many_positional_args": 789, "fix_applied:unused_ignore": 191, "fix_applied:missing_await": 53, "ignore_programs": 1665, "ignore_outcome:fixpoint": 549, "ignore_comment_removal_checks": 2310, "no_fixpoint_rechecked_to_the_limit": 8, "cli_runs": 12},
 }
